@@ -479,6 +479,30 @@ def extract_guards(src: Path) -> str:
                        "trio.current_time() + config.graceful_timeout` in trio/run.py")
     except Exception as e:
         fail("exitPath", str(e))
+    # H2Protocol.send_task (C15, F32): however the send task ends - closed, or cancelled with the connection's task group - it
+    # releases every sender waiting in push() / drain(): `try: <loop> finally: for … in self.stream_buffers.values(): await ….close()`.
+    # Without it a cancelled asyncio handler with a stream in progress never finishes (`Runtime.h2CancelDeadlocks`).
+    try:
+        fn = find_def(parse(src / "protocol/h2.py"), "H2Protocol", "send_task")
+        if fn is None:
+            fail("h2SendTaskReleasesSenders", "H2Protocol.send_task not found")
+        else:
+            body = [st for st in fn.body if not (isinstance(st, ast.Expr) and isinstance(st.value, ast.Constant))]  # type: ignore
+            releases = False
+            if len(body) == 1 and isinstance(body[0], ast.Try) and not body[0].handlers:
+                fb = body[0].finalbody
+                releases = (len(fb) == 1 and isinstance(fb[0], ast.For)
+                            and ast.unparse(fb[0].iter) == "self.stream_buffers.values()"
+                            and [ast.unparse(x) for x in fb[0].body] == [f"await {ast.unparse(fb[0].target)}.close()"])
+                if not releases:
+                    fail("h2SendTaskReleasesSenders", f"the finally of send_task is `{' '.join(ast.unparse(x) for x in fb)[:120]}`")
+            loops = [n for n in ast.walk(fn) if isinstance(n, ast.While)]
+            if len(loops) != 1 or ast.unparse(loops[0].test) != "not self.closed":
+                fail("h2SendTaskReleasesSenders", "send_task is not one `while not self.closed:` loop")
+            out.append(f"def h2SendTaskReleasesSenders : Bool := {'true' if releases else 'false'}"
+                       "   -- send_task: `try: while not self.closed: … finally: for b in self.stream_buffers.values(): await b.close()`")
+    except Exception as e:
+        fail("h2SendTaskReleasesSenders", str(e))
     # suppress_body
     try:
         fn = find_def(parse(src / "utils.py"), "suppress_body")
